@@ -34,7 +34,7 @@ func init() {
 	})
 	register(&Rule{
 		ID:    "C02.location",
-		Props: []string{"C02", "C15"},
+		Props: []string{"C02", "C15", "C10"},
 		Doc:   "location decision tables (interpreted over all models of the flags): face -> interior iff inSet; half-edge -> interior if both faces present, boundary if exactly one, else interior iff the edge itself is in the set; vertex -> boundary flag wins over interior flag; and the lineal boundary flag machine in addLineString implements the mod-2 rule: boundary' = boundary XOR endpoint, and some flag is set afterwards",
 		Floor: 4,
 		Run:   runC02Location,
